@@ -40,6 +40,8 @@ def run(chk, repo):
     chk.doc("R12.5", "single consumer / single producer of send_queue")
     r1(chk, repo)
     frame_answers(chk, repo)
+    every_frame(chk, repo)
+    refusals(chk, repo)
     r2(chk, repo)
     r3_progress(chk, repo)
     r4(chk, repo)
@@ -169,6 +171,85 @@ def r3_progress(chk, repo):
     chk.ob(rule, sym, "the request that cannot fit is failed", failed, h.tag,
            "in the empty-packet branch the pending future receives the "
            "exception")
+
+
+def every_frame(chk, repo):
+    """R12.11: a received frame whose index is waited for completes that
+    wait, whatever it contains.  Abstract execution of datagram_received on
+    frames with a known / unknown / already answered index and arbitrary
+    content (including content equal to what was sent)."""
+    import struct as _struct
+    chk.doc("R12.11", "a response is delivered whatever it contains")
+    ci = repo.cls(ETH + "EtherCat")
+    f = ci.methods["datagram_received"]
+    ev_ = Evaluator(repo, ci.module, ci)
+    try:
+        pix = ev_.class_attr(repo.cls(ETH + "Packet"), "PACKET_INDEX")
+    except Unknown:
+        raise AnalysisError("Packet.PACKET_INDEX not foldable")
+    bad = []
+    rows = 0
+    for content in (bytes(40), bytes(range(40)), b"\xff" * 40):
+        for state in ("waiting", "done", "unknown"):
+            rows += 1
+            data = bytearray(content)
+            _struct.pack_into("<I", data, pix, 0x1234)
+            data = bytes(data)
+            got = []
+            fut = Obj(None, {"done": ("hook", lambda _s=state: _s == "done"),
+                             "set_result": ("hook", lambda v: got.append(v)),
+                             "cancelled": ("hook", lambda: False),
+                             "sent": data, "request": data, "frame": data})
+            table = {} if state == "unknown" else {0x1234: fut}
+            me = Obj(ci, {"wait_futures": table})
+            try:
+                ev_.call_function(f, [me, data, ("addr", 0)], cls=ci)
+            except (Unknown, Raised) as e:
+                raise AnalysisError(f"{ETH}EtherCat.datagram_received: "
+                                    f"cannot be evaluated: {e}")
+            want = [data] if state == "waiting" else []
+            if got != want:
+                bad.append(f"frame {content[:2].hex()}.. for a {state} "
+                           f"index: delivered {len(got)} times")
+    chk.ob("R12.11", ETH + "EtherCat.datagram_received", "the frame goes to "
+           "the future registered under its index exactly when that future "
+           "is still waiting", not bad, f, "; ".join(bad[:3]) or
+           f"{rows} frames: content (zeros, pattern, equal to the request "
+           f"on record) makes no difference")
+
+
+def refusals(chk, repo):
+    """R12.10: the send loop handles exactly one refusal of Packet.append,
+    OverflowError (flush the frame and retry / fail that one request).
+    Any other exception raised there ends the send loop task: every
+    request queued then or later waits for ever."""
+    chk.doc("R12.10", "append() refuses with OverflowError only")
+    bad = []
+    n = 0
+    for q in (ETH + "Packet", "ebpfcat.ebpfcat.SterilePacket"):
+        ci = repo.cls(q)
+        for name in ("append", "append_writer"):
+            f = ci.methods.get(name)
+            if f is None:
+                continue
+            for r in [x for x in walk_no_nested(f) if isinstance(
+                    x, ast.Raise)]:
+                n += 1
+                exc = r.exc.func if isinstance(r.exc, ast.Call) else r.exc
+                if exc is None or dotted(exc) != "OverflowError":
+                    bad.append((r, f"{q}.{name} raises "
+                                   f"{unparse(exc) if exc is not None else 're-raise'}"))
+    sl = repo.func(ETH + "EtherCat.sendloop")
+    hs = [h for t in walk_no_nested(sl) if isinstance(t, ast.Try)
+          for h in t.handlers if h.type is not None and find(
+              "$p.append(*$d)", t.body)]
+    caught = {dotted(h.type) for h in hs}
+    chk.floor("R12.10", "refusals in append()", n, 1)
+    chk.ob("R12.10", ETH + "Packet.append", "every refusal is the exception "
+           "the send loop handles", not bad and "OverflowError" in caught,
+           bad[0][0] if bad else sl, (bad[0][1] + f"; sendloop catches "
+           f"{sorted(caught)} around the append") if bad else
+           "OverflowError in, OverflowError handled")
 
 
 def frame_answers(chk, repo, rule="R12.9"):
